@@ -1,6 +1,10 @@
 package markdown
 
-import "github.com/zerx-lab/wordZero/pkg/document"
+import (
+	"strings"
+
+	"github.com/zerx-lab/wordZero/pkg/document"
+)
 
 // C20: Word-to-Markdown export keeps reading order and text.
 
@@ -191,4 +195,33 @@ func ZZH_C20_BlockKinds() {
 		}
 	}
 	zzvReach("kinds")
+}
+
+// Tables: every cell's text is present in the export exactly once, row by row and cell by cell in
+// reading order - also when the rows do not hold the same number of cells (a merged header row
+// is narrower than the rows below it, or the other way round), for every option set.
+func ZZH_C20_TableCells() {
+	opts := zzhOpts()
+	nRows := 2 + zzvChoice(2)
+	var rows []document.TableRow
+	var texts []string
+	for r := 0; r < nRows; r++ {
+		nCells := 1 + zzvChoice(3)
+		row := document.TableRow{}
+		for c := 0; c < nCells; c++ {
+			t := "r" + zzvItoa(r) + "c" + zzvItoa(c) + "x"
+			row.Cells = append(row.Cells, document.TableCell{Paragraphs: []document.Paragraph{{Runs: []document.Run{zzhRun(zzhRunSpec{text: t})}}}})
+			texts = append(texts, t)
+		}
+		rows = append(rows, row)
+	}
+	got := zzhExport(opts, []interface{}{&document.Table{Rows: rows}})
+	pos := -1
+	for _, t := range texts {
+		zzvAssert(strings.Count(got, t) == 1, "table: every cell's text is present exactly once")
+		p := strings.Index(got, t)
+		zzvAssert(p > pos, "table: cell texts appear in reading order")
+		pos = p
+	}
+	zzvReach("table cells")
 }
